@@ -39,6 +39,15 @@ PROPS = {
             "custom keyword / function / type names (Keyword::Custom, Func::Custom, ColumnType::Custom, IndexType::Custom) are written unquoted by design and are not identifier positions of the property",
         ],
     },
+    "C20": {
+        "kind": "rustc",
+        "engine": "rustc",
+        "search": False,
+        "technique": "auto-trait obligations `T: Send + Sync` instantiated at every public type found in /repo/src, discharged by rustc's trait solver (cargo check, feature thread-safe)",
+        "trusted_base": ["rustc 's trait solver and auto-trait rules", "the type list is scraped from `pub struct|enum|type` items on each run; generic types and types not nameable from outside the crate are listed in the evidence, not instantiated"],
+        "assumptions": ["`unsafe impl Send/Sync` would be accepted by rustc without proof; a scan for them is part of the evidence (none present)"],
+        "design_ref": "DESIGN.md section 4.12",
+    },
     "C17": {
         "kind": "verus",
         "units": [{"name": "escape"}],
@@ -68,6 +77,7 @@ PROPS = {
 }
 
 LEVEL_TEXT = {
+    "C20": "Type-level proof for all values: the contract `where T: Send + Sync` is instantiated at every nameable non-generic public type of the crate (built with feature thread-safe) and discharged by rustc's trait solver; a type that stops being Send or Sync is a compile error naming the offending field.",
     "C04": "Unbounded proof for all identifier strings: the extracted Iden::prepare satisfies `quoted_ident(output ++ rest) == (name, |output|)` for every rest not starting with the quote, for both quote characters; the backends' QUOTE constants are verified to be those characters; every raw quoting site found in src/backend on this run satisfies the same contract.",
     "C17": "Unbounded proof for all strings: escape_string's postcondition is `unescape_spec(result) == input` and unescape_string's is `result == unescape_spec(input)` on the extracted bodies of all three backends (default chain of 8 replacements proved equal to a single-pass map; SQLite quote doubling vs leftmost non-overlapping '' replacement); the property is the verified composition `roundtrip`.",
     "C03": "Unbounded proof for all strings / chars / byte strings: the extracted literal writers (write_string_quoted default + Postgres override, write_bytes default + Postgres override, value_to_string_common, prepare_constant, MySQL column_comment) satisfy `lex_B(output ++ rest) == (value, |output|)` for every rest not starting with a quote, under the three engines' lexers.",
@@ -85,5 +95,5 @@ NOT_APPLICABLE = {
     "C14": "needs a MySQL/Postgres DDL grammar as oracle; its core is a 40-arm format! table whose only possible contract is a copy of itself (DESIGN.md section 6)",
     "C15": _NOT_YET, "C18": _NOT_YET,
     "C19": "the mapping is computed at compile time by a proc-macro over syn token trees with heck; the quantifier is over programs; neither Verus nor Kani can take proc_macro/syn/quote code (DESIGN.md section 6)",
-    "C20": _NOT_YET,
+    
 }
